@@ -602,7 +602,7 @@ def run(ck):
               "refmodel/cphot_ref.py is the oracle of the bounded check: an independent float64 evaluation written from the model named in the statement; it shares the published parametrisations and their constants with the kernel, none of its code",
               "leaf proofs are over the reals: the kernel's dtype casts are identities there; its geometric constants (Earth radius, orbit, pi) are symbols in the proofs and checked as data",
               "zsteps (compiled C++; pybind11 is not installed, the shipped binary cannot be rebuilt) is replaced by its contract in slant_depth and checked against the model's own stepping only inside the bounded run",
-              "photon_sum (3-D Hillas integration, einsum) and cher_ang_sig_i are outside the symbolic front end: they are covered by the bounded run only; in the proof of run's body they are abstract functions of the arguments they are given",
+              "photon_sum (3-D Hillas integration, einsum) is outside the symbolic front end: it is covered by the bounded run only; in the proof of run's body it and cher_ang_sig_i are abstract functions of the arguments they are given (cher_ang_sig_i is proved separately)",
               "run's body is proved on a shower of 3 explicit steps x 2 wavelength bins with the particle-number maximum at the middle step (explicit-array small scope), every helper replaced by its contract")
     ck.trust("numpy elementwise / mask-store / where / searchsorted / cumsum semantics (nssvc.npmodel)", "sympy diff and normal forms")
     for rel_ in ("nuspacesim/simulation/eas_optical/cphotang.py", "nuspacesim/simulation/eas_optical/eas.py", "nuspacesim/simulation/eas_optical/detector_geometry.py",
@@ -616,6 +616,7 @@ def run(ck):
     yield_obligations(ck)
     run_body_obligations(ck, (2, 7, 5))
     run_body_obligations(ck, (7, 5, 2))  # maximum at the first step: a step that a cloud can hide
+    spread_obligations(ck)
     table_obligations(ck)
     # event by event: EAS.__call__ hands each in-range event's own angle, altitude, energy and location to the kernel (same mask on all five);
     # the 1-degree clamp reaches every use of the angle, including the rescaling to the detector altitude
@@ -1024,6 +1025,69 @@ def cloud_cast_native():
             if (float(r_a[0]), float(r_a[1])) != (float(r_b[0]), float(r_b[1])) and worst is None:
                 worst = {"step": j, "z_j": repr(float(zs[j])), "z_j+1": repr(float(zs[j + 1])), "cloud top a": repr(top_a), "cloud top b": repr(top_b), "result a": [float(r_a[0]), float(r_a[1])], "result b": [float(r_b[0]), float(r_b[1])]}
     return {"violated": worst is not None, "input": {"beta_deg": 20.0, "alt": alt, "E": e, "cloud tops": "%d pairs of doubles between consecutive step altitudes (z_j + 1e-9 and the midpoint)" % n_}, "observed": worst}
+
+
+def spread_obligations(ck):
+    """cher_ang_sig_i on explicit arrays (3 steps): weighted standard deviation of the Cherenkov angle about the given mean, with the
+    n/(n-1) correction over the steps that carry weight (n > 1), plain otherwise"""
+    from nssvc.sym import EA
+
+    qn = "cphotang:CphotAng.cher_ang_sig_i"
+    n = 3
+    w = [sp.Symbol("w_%d" % k, nonnegative=True) for k in range(n)]
+    th = [sp.Symbol("thetaC_%d" % k, positive=True) for k in range(n)]
+    W, m = sp.Symbol("W", positive=True), sp.Symbol("mean", positive=True)
+
+    def ea(vals):
+        a = np.empty(len(vals), dtype=object)
+        for i, x in enumerate(vals):
+            a[i] = S(x)
+        return EA(a)
+
+    it = harness.make_interp(max_paths=64)
+    c = k64()
+    paths = it.explore(lambda: (c.cher_ang_sig_i, [ea(w), S(W), ea(th), S(m)], {}))
+    ck.add_functions(it)
+    if any(p.kind != "return" for p in paths) or not paths:
+        o = ck.ob("%s/exec" % qn, "exec")
+        o.note = "; ".join("%s %s at %s" % (p.kind, p.exc, getattr(p, "where", "")) for p in paths if p.kind != "return")[:300] or "no path"
+        ck._undecided(o, None)
+        return
+    worst, seen = "proved", 0
+    note = ""
+    for p in paths:
+        nz = [k for k in range(n) if sp.Ne(w[k] * th[k], 0) in p.pc or sp.Ne(w[k], 0) in p.pc or sp.Gt(w[k], 0) in p.pc or sp.Gt(w[k] * th[k], 0) in p.pc]
+        zero = [k for k in range(n) if sp.Eq(w[k] * th[k], 0) in p.pc or sp.Eq(w[k], 0) in p.pc]
+        if len(nz) + len(zero) != n:
+            worst, note = "unknown", "a path does not decide which steps carry weight: %s" % p.pc
+            continue
+        cnt = len(nz)
+        var = sum(w[k] / W * (th[k] - m) ** 2 for k in range(n))
+        want = sp.sqrt(var * cnt / (cnt - 1)) if cnt > 1 else sp.sqrt(var)
+        got = harness.term(p.result)
+        sub = {w[k]: 0 for k in zero}
+        st = prover.identity_decide(got.xreplace(sub), want.xreplace(sub), seed=ck.seed)[0]
+        seen += 1
+        if st == "refuted":
+            worst, note = "refuted", "steps with weight %s: %s" % (nz, str(got)[:160])
+            break
+        if st != "proved":
+            worst, note = "unknown", "steps with weight %s: %s" % (nz, str(got)[:160])
+    ck.direct("%s/post.spread" % qn, True if worst == "proved" and seen == len(paths) else (False if worst == "refuted" else None), "post",
+              "path enumeration on explicit arrays (3 steps, %d paths) + sympy normal form / 40-digit evaluation" % len(paths), note=note,
+              clause="spread = sqrt(sum_k (w_k/W)(theta_k - <theta>)^2 x n/(n-1)) over the n steps with non-zero weight x angle when n > 1, without the factor otherwise",
+              replay_out=None if worst != "refuted" else spread_native())
+
+
+def spread_native():
+    c = k64()
+    w, th = np.array([3.0, 0.0, 5.0, 2.0]), np.array([0.020, 0.021, 0.0225, 0.019])
+    W = w.sum()
+    m = float((w * th).sum() / W)
+    got = float(c.cher_ang_sig_i(w, W, th, m))
+    var = float((w / W * (th - m) ** 2).sum())
+    want = math.sqrt(var * 3 / 2)
+    return {"violated": abs(got - want) > 1e-12 * want, "input": {"weights": w.tolist(), "angles": th.tolist()}, "observed": {"kernel": got, "formula": want}}
 
 
 def _same_term(x, y):
